@@ -6,6 +6,7 @@ import Abnf.Engine
 import Abnf.RefSem
 import Abnf.Cache
 import Abnf.Visitor
+import Abnf.Compile
 namespace Abnf.Ext
 
 def nats (l : List String) : List Nat := l.map String.toNat!
@@ -94,6 +95,42 @@ def handleVisitor (toks : List String) : Option String :=
     | none => some "none"
   | _ => none
 
+def splitOn (sep : String) : List String → List (List String)
+  | [] => [[]]
+  | t :: ts =>
+    match splitOn sep ts with
+    | [] => [[t]]
+    | g :: gs => if t == sep then [] :: g :: gs else (t :: g) :: gs
+
+/-- `decnum base cp*` ; `decrepeat cp* | star? | cp*` (groups separated by `|`, star given as `1`/`0`) ;
+`decnumval base single|range|series cp* (| cp*)*` ; `decdefas (L|W cp*)(| ...)*` ; `normle cp*` -/
+def handleCompile (toks : List String) : Option String :=
+  match toks with
+  | "decnum" :: base :: cps =>
+    some (match Compile.decodeNum base.toNat! (nats cps) with | some v => toString v | none => "none")
+  | "decrepeat" :: rest =>
+    match splitOn "|" rest with
+    | [before, [star], after] =>
+      some (match Compile.decodeRepeat ⟨nats before, star == "1", nats after⟩ with
+        | some (a, some b) => toString a ++ " " ++ toString b
+        | some (a, none) => toString a ++ " -"
+        | none => "none")
+    | _ => none
+  | "decnumval" :: base :: kind :: rest =>
+    let groups := (splitOn "|" rest).map nats
+    match groups with
+    | first :: more =>
+      let tail : Compile.NumTail := if kind == "single" then .single
+        else if kind == "range" then .range (more.headD []) else .series more
+      some (match Compile.decodeNumVal base.toNat! first tail with
+        | some (.lit v _) => "lit" ++ String.join (v.map (fun c => " " ++ toString c))
+        | some (.range a b) => "range " ++ toString a ++ " " ++ toString b
+        | _ => "none")
+    | [] => none
+  | "normle" :: cps =>
+    some (String.intercalate " " ((Compile.normaliseLineEnds (nats cps)).map toString))
+  | _ => none
+
 def handle (G : Grammar) (fuel : Nat) (toks : List String) (x : XState) : Option (String × XState) :=
   match toks with
   | "refends" :: r :: i :: cps => some (showRRes (refEnds G fuel (nats cps) (.ref r.toNat!) i.toNat!), x)
@@ -101,6 +138,10 @@ def handle (G : Grammar) (fuel : Nat) (toks : List String) (x : XState) : Option
   | "xreset" :: _ => some ("reset", {})
   | "treeeq" :: _ => (handleVisitor toks).map (fun o => (o, x))
   | "dispatch" :: _ => (handleVisitor toks).map (fun o => (o, x))
+  | "decnum" :: _ => (handleCompile toks).map (fun o => (o, x))
+  | "decrepeat" :: _ => (handleCompile toks).map (fun o => (o, x))
+  | "decnumval" :: _ => (handleCompile toks).map (fun o => (o, x))
+  | "normle" :: _ => (handleCompile toks).map (fun o => (o, x))
   | _ => none
 
 end Abnf.Ext
